@@ -7,6 +7,7 @@ CONSTANTS
   MaxClock = 0
   MaxRm = 0
   Interval = 0
+  RegOrder = "locked"
   RemoveBy = "instance"
   Results = {"keep", "stop", "err", "nonext"}
   KeepHist = "off"
